@@ -12,6 +12,7 @@ Nothing is ever concluded from an abstract `sat`.
 import z3
 
 _cache = {}
+SIDE = []  # valid facts about abstraction constants (lengths are non-negative, indexof >= -1)
 
 
 def _is_strish(sort):
@@ -57,7 +58,13 @@ def _abs(e):
         raise ValueError("string-sorted term reached")
     ch = e.children()
     if any(_is_strish(c.sort()) for c in ch):
-        return _const_for(e)
+        c_ = _const_for(e)
+        k = e.decl().kind()
+        if k == z3.Z3_OP_SEQ_LENGTH:
+            SIDE.append(c_ >= 0)
+        elif k == z3.Z3_OP_SEQ_INDEX:
+            SIDE.append(c_ >= -1)
+        return c_
     if not ch:
         return e
     k = e.decl().kind()
@@ -89,4 +96,6 @@ def unsat_abstract(pc, goal, timeout_ms=1500):
     for c in pc:
         s.add(abstract(c))
     s.add(z3.Not(abstract(goal)))
+    for c in SIDE:
+        s.add(c)
     return s.check() == z3.unsat
